@@ -231,8 +231,10 @@ class Receiver:
                     TaskiqState: self.broker.state,
                 },
             )
+            # Resolver gets its own copy, because broker's dict
+            # is shared between all concurrently running tasks.
             dep_ctx = dependency_graph.async_ctx(
-                broker_ctx,
+                dict(broker_ctx),
                 self.broker.dependency_overrides or None,
             )
             # Resolve all function's dependencies.
